@@ -36,7 +36,11 @@
 #endif
 
 /* locals assigned inside model loops must be address-taken under DFCC --apply-loop-contracts (cbmc 6.11) */
+#ifdef VERIF_NO_DIRTY
+#define VERIF_DIRTY(v) do {} while (0)
+#else
 #define VERIF_DIRTY(v) do { void * volatile verif_dirty_p = &(v); (void)verif_dirty_p; } while (0)
+#endif
 
 int nondet_int(void);
 size_t nondet_size_t(void);
@@ -44,6 +48,7 @@ uintmax_t nondet_uintmax(void);
 
 /* ------------------------------------------------------------------ ghost state */
 struct http_ghost g_http;
+struct http_ghost_in g_http_in;
 
 /* allocation inside the environment: may fail independently of cbmc's --malloc-may-fail */
 static void *
